@@ -38,6 +38,7 @@ ROOTS = {
     # ---- linear scoring --------------------------------------------------------------------------------
     "ls.norm": ("linear_scoring:linear_scoring", {"models_means": "U [M,C,D]", "ubm": "obj:GMMMachine", "test_stats": ST, "test_channel_offsets": "U [K,C,D]", "frame_length_normalization": "true"}, True, (None,), "1 [M,K]"),
     "ls.raw": ("linear_scoring:linear_scoring", {"models_means": "U [M,C,D]", "ubm": "obj:GMMMachine", "test_stats": ST, "test_channel_offsets": "U [K,C,D]", "frame_length_normalization": "false"}, True, (None,), "1 S [M,K]"),
+    "ls.model2d": ("linear_scoring:linear_scoring", {"models_means": "U [C,D]", "ubm": "obj:GMMMachine", "test_stats": ST, "test_channel_offsets": "U [K,C,D]", "frame_length_normalization": "false"}, True, (None,), None),
     "ls.machines": ("linear_scoring:linear_scoring", {"models_means": "list:M:obj:GMMMachine", "ubm": "obj:GMMMachine", "test_stats": "obj:GMMStats", "frame_length_normalization": "false"}, True, (None,), "1 S [M,K]"),
     # ---- i-vector (counts are combined with prior precisions: S not tracked) -----------------------------
     "iv.e_step": ("ivector:e_step", {"machine": "obj:IVectorMachine", "data": ST}, False, (None,), None),
